@@ -130,7 +130,7 @@ def ev(expr, env):
         return v[expr[2]]
     if op == "slice":
         v = env[expr[1]]
-        return v[expr[2]:expr[3]]
+        return v[expr[2]:expr[3]:(expr[4] if len(expr) > 4 else None)]
     a = [ev(x, env) for x in expr[1:]]
     if any(isinstance(x, list) for x in a) and not any(hasattr(x, "variables") for x in a):
         # direct construction with array values: element-wise, as numpy does for the built variables
